@@ -29,9 +29,12 @@ def getRatD (j : Json) (k : String) (d : Rat) : Except String Rat :=
 def getLeaf (j : Json) : Except String Leaf := do
   return { id := ← (← fld j "id").getNat?, val := ← getOptRat (← fld j "val"), ty := ← (← fld j "ty").getNat?,
            txt := ← (← fld j "txt").getStr?, txtPad := ← (← fld j "txtPad").getStr?,
-           padNone := ← (← fld j "padNone").getBool?, neverPad := ← (← fld j "neverPad").getBool? }
+           padNone := ← (← fld j "padNone").getBool?, neverPad := ← (← fld j "neverPad").getBool?,
+           fresh := (match j.getObjVal? "fresh" with | .ok (.bool b) => b | _ => true) }
 
 def stub (id : Nat) : Leaf := { id := id, val := none, ty := 0, txt := "", txtPad := "", padNone := false, neverPad := false }
+
+def getBoolD (j : Json) (k : String) : Bool := match j.getObjVal? k with | .ok (.bool b) => b | _ => false
 
 def getKind (s : String) : Except String Kind :=
   match s with
@@ -55,7 +58,8 @@ def getSc (j : Json) : Except String (Int × Sc) := do
       omit1 := ← (← fld j "omit1").getBool?, numTok := numTok, numOg := numOg,
       midPad := ← (← fld j "midPad").getStr?, endPad := ← (← fld j "endPad").getStr?,
       mulTxt := ← (← fld j "mulTxt").getStr?, mulWritten := mulW,
-      mulOg := ← (match j.getObjVal? "mulOg" with | .ok v => getOptRat v | _ => pure none) })
+      mulOg := ← (match j.getObjVal? "mulOg" with | .ok v => getOptRat v | _ => pure none),
+      ownStart := getBoolD j "ownStart" })
 
 def ratJson (r : Rat) : Json := Json.arr #[toJson r.num, toJson r.den]
 
